@@ -149,7 +149,7 @@ var BaseStrategies = []*StratEntity{
 	{Name: "momentum.AwesomeOscillator", NCfg: 2, Make: withField(func() strategy.Strategy { return sm.NewAwesomeOscillatorStrategy() }, "AwesomeOscillator", "momentum.AwesomeOscillator")},
 	{Name: "momentum.Rsi", NCfg: 1, Make: withField(func() strategy.Strategy { return sm.NewRsiStrategy() }, "Rsi", "momentum.Rsi")},
 	{Name: "momentum.RsiWith", Make: func(c []int) strategy.Strategy { return sm.NewRsiStrategyWith(40, 60) }},
-	{Name: "momentum.StochasticRsi", NCfg: 1, Make: withField(func() strategy.Strategy { return sm.NewStochasticRsiStrategy() }, "StochasticRsi", "momentum.StochasticRsi")},
+	{Name: "momentum.StochasticRsi", NCfg: 2, Make: withField(func() strategy.Strategy { return sm.NewStochasticRsiStrategy() }, "StochasticRsi", "momentum.StochasticRsi")},
 	{Name: "momentum.StochasticRsiWith", Make: func(c []int) strategy.Strategy { return sm.NewStochasticRsiStrategyWith(0.3, 0.7) }},
 	{Name: "momentum.TripleRsi", NCfg: 3, Make: func(c []int) strategy.Strategy {
 		if c == nil {
